@@ -132,6 +132,8 @@ func displayEq(want []string, got string) (bool, string) {
 
 // compareOutcome judges a worker response against the reference result.
 // status: "ok", "skip" (reference leaves the case unspecified), "diff".
+var refKnownCodes = map[int]bool{42: true, 43: true, 44: true, 60: true, 63: true, 64: true}
+
 func compareOutcome(ref zr.Result, resp *Resp) (status, diff string) {
 	if _, ok := ref.Err.(*zr.Unspec); ok {
 		return "skip", ref.Err.Error()
@@ -180,6 +182,13 @@ func compareOutcome(ref zr.Result, resp *Resp) (status, diff string) {
 	case *zr.ZErr:
 		if e.Code != 0 && resp.Err.Code != 0 && resp.Err.Code != e.Code {
 			return "diff", fmt.Sprintf("error code %d (%s), expected %d (%s)", resp.Err.Code, resp.Err.Msg, e.Code, e.Kind)
+		}
+		// the converse: the codes the reference knows (undefined name, redeclaration, constant,
+		// module / library missing, cycle) must not be reported for an error of another kind -
+		// e.g. a swallowed fault that surfaces later as "name undefined"
+		// (writes to predefined names are excepted: the statements only ask for an error there)
+		if e.Code == 0 && e.Kind != "predefined" && refKnownCodes[resp.Err.Code] {
+			return "diff", fmt.Sprintf("error code %d (%s) observed, but the error the program must end with is of kind %q", resp.Err.Code, resp.Err.Msg, e.Kind)
 		}
 	case *zr.Thrown:
 		if ex, ok := e.Val.(*zr.VExc); ok && !ex.Opaque {
